@@ -92,6 +92,15 @@ def unpts(L):
     return np.array([[float(unrat(v)) for v in row] for row in L], float).reshape(-1, 3)
 
 
+def offset_vec(rng):
+    """a centroid offset well above the 1e-6 tolerance: single components of either sign, all components, and
+    offsets whose components cancel (sum to zero) or are all negative - a guard that averages over all coordinates,
+    or forgets the absolute value, accepts exactly those"""
+    base = rng.choice([(1, 0, 0), (0, 1, 0), (0, 0, 1), (-1, 0, 0), (0, -1, 0), (0, 0, -1), (1, 1, 1), (-1, -1, -1),
+                       (3, -3, 0), (0, 2, -2), (5, -2, -3), (-1, 2, -1), (1, -1, 0), (-2, 0, 2)])
+    return rng.choice([1e-5, 1e-3, 0.5, 1.0, 7.0]) * np.array(base, dtype=float)
+
+
 def cases(ctx):
     rng = ctx.rng
     g = nprng(rng)
@@ -152,7 +161,7 @@ def cases(ctx):
         for op in ('kabsch', 'quat'):
             out.append({'op': op, 'P': pts(P), 'Q': pts(Q), 'family': fam + '-exact', 'n': len(P), 'scale_in': 1.0, 'eps': rat(EPS)})
     # guards and dispatch
-    for k in range(ctx.scale(60, 1500)):
+    for k in range(ctx.scale(180, 3000)):
         n = rng.choice([1, 2, 3, 10])
         P, Q = make_pair(g, 'generic', n, 10 ** g.uniform(-1, 2))
         kind = ['size', 'offsetP', 'offsetQ', 'tiny', 'method', 'ok'][k % 6]
@@ -160,9 +169,9 @@ def cases(ctx):
         if kind == 'size':
             Q = centre(g.normal(size=(n + rng.choice([1, 2]), 3)))
         elif kind == 'offsetP':
-            P = P + rng.choice([1e-5, 1e-3, 1.0, -0.5]) * np.eye(3)[rng.randrange(3)]
+            P = P + offset_vec(rng)
         elif kind == 'offsetQ':
-            Q = Q + rng.choice([1e-5, 1e-3, 1.0, -0.5]) * np.eye(3)[rng.randrange(3)]
+            Q = Q + offset_vec(rng)
         elif kind == 'tiny':
             P = P + rng.choice([1e-8, -1e-9]) * np.eye(3)[rng.randrange(3)]
         elif kind == 'method':
